@@ -48,6 +48,7 @@ import re
 
 import corpus
 import vlib
+import zoo
 
 _ATTR = re.compile(r"^\s*#\[(test|should_panic[^\]]*|available_gas[^\]]*|ignore)\]\s*$", re.M)
 
@@ -57,27 +58,31 @@ def _ident(s):
     return s if re.match(r"[A-Za-z_]", s) else "x" + s
 
 
-def prepare_sources(dst):
+def prepare_sources(dst, e2e=True):
     """Writes the corpus sources as single-file crates into dst; returns {kind: count}."""
     os.makedirs(dst, exist_ok=True)
     for f in glob.glob(os.path.join(dst, "*.cairo")):
         os.unlink(f)
     counts = {"examples": 0, "e2e_cairo_code": 0, "bug_samples": 0}
-    for f in sorted(glob.glob("/repo/examples/*.cairo")):
+    R = corpus.REPO
+    for f in sorted(glob.glob(R + "/examples/*.cairo")):
         name = "x_" + _ident(os.path.splitext(os.path.basename(f))[0])
         open(os.path.join(dst, name + ".cairo"), "w").write(_ATTR.sub("", open(f).read()))
         counts["examples"] += 1
-    for f in sorted(glob.glob("/repo/tests/bug_samples/*.cairo")):
+    for f in sorted(glob.glob(R + "/tests/bug_samples/*.cairo")):
         if os.path.basename(f) == "lib.cairo":
             continue
         name = "b_" + _ident(os.path.splitext(os.path.basename(f))[0])
         # test functions become plain parameterless functions of the crate
         open(os.path.join(dst, name + ".cairo"), "w").write(_ATTR.sub("", open(f).read()))
         counts["bug_samples"] += 1
-    for f in sorted(glob.glob("/repo/tests/e2e_test_data/**/*", recursive=True)):
+    if not e2e:
+        counts["zoo"] = zoo.write(dst)
+        return counts
+    for f in sorted(glob.glob(R + "/tests/e2e_test_data/**/*", recursive=True)):
         if not os.path.isfile(f):
             continue
-        rel = _ident(os.path.relpath(f, "/repo/tests/e2e_test_data"))
+        rel = _ident(os.path.relpath(f, R + "/tests/e2e_test_data"))
         for k, t in enumerate(corpus._sections(f)):
             code = t.get("cairo_code", "").strip()
             if code:
@@ -86,7 +91,41 @@ def prepare_sources(dst):
                 code = re.sub(r"\btest::", name + "::", code)
                 open(os.path.join(dst, name + ".cairo"), "w").write(code + "\n")
                 counts["e2e_cairo_code"] += 1
+    # the instantiation zoo (lib/zoo.py): libfunc instantiations no golden file pins
+    counts["zoo"] = zoo.write(dst)
     return counts
+
+
+_dump_cache = {}
+
+
+def compile_fresh_corpus(ctx, cdir):
+    """Compiles examples, bug samples and the instantiation zoo with the CURRENT compiler (h14run, compile only) and
+    adds the Sierra text of every program as cc_<name>.sierra to cdir (corpus of the static legs of C15/C17/C04).
+    The e2e cairo_code sections are left out: their Sierra is the pinned sierra_code already in the corpus.
+    Returns dict(ok, compiled, not_compiled=[...])."""
+    key = (ctx.out, ctx.tier)
+    res = {"ok": False, "compiled": 0, "not_compiled": []}
+    ok_build, _ = vlib.cargo_build(ctx, "h14")
+    if not ok_build:
+        res["error"] = "harness h14 does not build against the tree under test"
+        return res
+    src = os.path.join(ctx.out, "cc_sources")
+    out = os.path.join(ctx.out, "cc_run")
+    res["sources"] = prepare_sources(src, e2e=False)
+    vlib.clean_dir(out)
+    env = vlib.env_offline()
+    env["H14_SIERRA_DUMP"] = cdir
+    env["H14_COMPILE_ONLY"] = "1"
+    rc, o = vlib.run([os.path.join(vlib.HARNESS, "target", "debug", "h14run"), src, out, ctx.tier], timeout=1200, env=env)
+    sp = os.path.join(out, "summary.json")
+    if rc != 0 or not os.path.exists(sp):
+        res["error"] = "h14run (compile only) failed: " + o[-800:]
+        return res
+    res["ok"] = True
+    res["compiled"] = json.load(open(sp)).get("compiled", 0)
+    res["not_compiled"] = json.load(open(os.path.join(out, "not_compiled.json")))
+    return res
 
 
 _cache = {}
